@@ -82,18 +82,19 @@ func (a avoid) list() (out []string) {
 }
 
 type gen struct {
-	r       *Rng
-	p       seqProfile
-	cs      *Case
-	cols    []ColSpec // columns existing at the current point of the history (incl. late ones)
-	indexes []IndexSpec
-	sorts   []SortSpec
-	trigs   []string
-	dropped []string // names of dropped columns (a later createcol may reuse one)
-	av      avoid
-	nameSeq int
-	keys    []string
-	uniq    uint64
+	r         *Rng
+	p         seqProfile
+	cs        *Case
+	cols      []ColSpec // columns existing at the current point of the history (incl. late ones)
+	indexes   []IndexSpec
+	sorts     []SortSpec
+	trigs     []string
+	dropped   []string // names of dropped columns (a later createcol may reuse one)
+	droppedIx []string // names of dropped bitmap indexes (a later createindex may reuse one)
+	av        avoid
+	nameSeq   int
+	keys      []string
+	uniq      uint64
 }
 
 func (g *gen) name(prefix string) string {
@@ -501,6 +502,10 @@ func (g *gen) genTxn() *TxnProg {
 				if g.av.rollbackInsert && t.Abort {
 					op.Fail = true
 				}
+				if sk := NewRng(g.cs.Seed, uint64(g.cs.Run), uint64(len(t.Ops)), g.uniq, 95); sk.Chance(0.15) {
+					// the callback also writes the row's own key (an object that carries its key)
+					op.Writes = append(op.Writes, Write{SetKey: true, Val: strVal(key)})
+				}
 				inserted = true
 			case "querykey":
 				op.Writes = g.genWrites(r.Range(0, 3), false)
@@ -592,6 +597,12 @@ func genSeq(prop string, seed uint64, run int, p seqProfile, av avoid) *Case {
 			cs.Steps = append(cs.Steps, Step{Kind: "createcol", Col: &c})
 		case 2:
 			ix := g.genIndex()
+			if nr := NewRng(seed, uint64(run), uint64(i), 96); len(g.droppedIx) > 0 && nr.Chance(0.6) {
+				// a new index (other column, other predicate) under the name of a dropped one
+				j := nr.Intn(len(g.droppedIx))
+				ix.Name = g.droppedIx[j]
+				g.droppedIx = append(g.droppedIx[:j], g.droppedIx[j+1:]...)
+			}
 			g.indexes = append(g.indexes, *ix)
 			cs.Steps = append(cs.Steps, Step{Kind: "createindex", Index: ix})
 		case 3:
@@ -600,6 +611,7 @@ func genSeq(prop string, seed uint64, run int, p seqProfile, av avoid) *Case {
 			}
 			k := r.Intn(len(g.indexes))
 			cs.Steps = append(cs.Steps, Step{Kind: "dropindex", Name: g.indexes[k].Name})
+			g.droppedIx = append(g.droppedIx, g.indexes[k].Name)
 			g.indexes = append(g.indexes[:k], g.indexes[k+1:]...)
 		case 4:
 			var sc []ColSpec
@@ -665,6 +677,44 @@ func genSeq(prop string, seed uint64, run int, p seqProfile, av avoid) *Case {
 			cs.Steps = append(cs.Steps, Step{Kind: "dropcol", Name: g.cols[i].Name})
 			g.dropped = append(g.dropped, g.cols[i].Name)
 			g.cols = append(g.cols[:i:i], g.cols[i+1:]...)
+		}
+	}
+	// template (own stream): a read-only transaction fails, and with no transaction in between
+	// an index / a column it resolved is dropped and re-created under the same name
+	if tr := NewRng(seed, uint64(run), 98); tr.Chance(0.1) {
+		if p.wDropIndex > 0 && len(g.indexes) > 0 {
+			old := g.indexes[tr.Intn(len(g.indexes))]
+			nix := g.genIndex()
+			nix.Name = old.Name
+			cs.Steps = append(cs.Steps,
+				Step{Kind: "txn", Txn: &TxnProg{Abort: true, Ops: []Op{{Kind: "count", Filter: []FStep{{Kind: "with", Names: []string{old.Name}}}}}}},
+				Step{Kind: "dropindex", Name: old.Name},
+				Step{Kind: "createindex", Index: nix},
+				Step{Kind: "txn", Txn: &TxnProg{Ops: []Op{{Kind: "count", Filter: []FStep{{Kind: "with", Names: []string{old.Name}}}}}}})
+			for k := range g.indexes {
+				if g.indexes[k].Name == old.Name {
+					g.indexes[k] = *nix
+				}
+			}
+		} else if p.wDropCol > 0 {
+			for i := len(g.cols) - 1; i >= 0; i-- {
+				c := g.cols[i]
+				used := c.Name == "expire" || c.Kind == KKey
+				for _, ix := range g.indexes {
+					used = used || ix.Col == c.Name
+				}
+				if used || len(g.sorts) > 0 || len(g.trigs) > 0 {
+					continue
+				}
+				nc := ColSpec{Name: c.Name, Kind: []Kind{KInt64, KString, KFloat64, KBool}[tr.Intn(4)]}
+				cs.Steps = append(cs.Steps,
+					Step{Kind: "txn", Txn: &TxnProg{Abort: true, Ops: []Op{{Kind: "at", Target: Target{Mode: "live", K: tr.Intn(64)}}}}},
+					Step{Kind: "dropcol", Name: c.Name},
+					Step{Kind: "createcol", Col: &nc},
+					Step{Kind: "txn", Txn: &TxnProg{Ops: []Op{{Kind: "at", Target: Target{Mode: "live", K: tr.Intn(64)}}}}})
+				g.cols[i] = nc
+				break
+			}
 		}
 	}
 	// fault: a quarter of the failing transactions panic instead of returning an error (own stream)
